@@ -46,14 +46,16 @@ def default_fee(
     content: Dict[str, Any],
     gas_limit: Optional[int] = None,
     minimal_nanotez_per_gas_unit: Optional[int] = None,
+    constants: Optional[Dict[str, Any]] = None,
 ) -> int:
     """Take hard gas limit instead of precise amount (no simulation) and calculate fee.
 
     :param content: operation content {..., "kind": "transaction", ... }
+    :param constants: constants block from context (the default gas limit depends on the chain's hard gas limit)
     """
     return calculate_fee(
         content=content,
-        consumed_gas=gas_limit if gas_limit is not None else default_gas_limit(content),
+        consumed_gas=gas_limit if gas_limit is not None else default_gas_limit(content, constants),
         # branch, signature, fee:gas_limit:storage_limit mutez values (+3 bytes)
         extra_size=32 + signature_size(content.get('source', '')) + 3 * 3,
         minimal_nanotez_per_gas_unit=minimal_nanotez_per_gas_unit,
